@@ -22,7 +22,6 @@ import (
 	"regexp"
 	"strconv"
 	"strings"
-	"time"
 	"unicode/utf8"
 
 	"github.com/benhoyt/goawk/interp"
@@ -148,7 +147,7 @@ type rsKind struct {
 	edge  []string // short texts placed across the 64 KiB edge
 }
 
-func chr(c rune) *hx.Re     { return &hx.Re{Kind: "chr", R: c} }
+func chr(c rune) *hx.Re { return &hx.Re{Kind: "chr", R: c} }
 func cat(a ...*hx.Re) *hx.Re {
 	r := a[0]
 	for _, b := range a[1:] {
@@ -252,7 +251,7 @@ func genCases(o hx.Opts, r *hx.Rand, ks []rsKind) []kase {
 	thorough := o.Tier == "thorough"
 	exhLen, rndLen, rndCount, longCount := 4, 8, 14, 6
 	if thorough {
-		exhLen, rndLen, rndCount, longCount = 6, 12, 60, 40
+		exhLen, rndLen, rndCount, longCount = 5, 12, 6, 30
 	}
 	if o.N > 0 {
 		rndCount = o.N
@@ -343,15 +342,19 @@ func genCases(o hx.Opts, r *hx.Rand, ks []rsKind) []kase {
 		// 5. around the 64 KiB buffer edge: a long first record, separator text across the edge
 		if len(k.edge) > 0 {
 			for ei, e := range k.edge {
-				if !thorough && ei > 1 {
+				if !thorough && ei > 0 {
 					break
 				}
-				for _, off := range []int{0, 1, len(e)} {
+				offs := []int{0, 1, len(e)}
+				if !thorough {
+					offs = []int{1, len(e)}
+				}
+				for _, off := range offs {
 					head := 65536 - off
 					d := strings.Repeat(k.fill, head) + e + k.alpha[0] + e + k.alpha[0]
 					n := len(d)
 					add(k, d, oneCut(n), false, "64k-oneshot") // bufio itself cuts the read at 65536
-					if thorough || ei == 0 {
+					{
 						for _, p := range []int{65535, 65536, 65537} {
 							add(k, d, []int{p, n - p}, false, "64k-split")
 						}
@@ -634,13 +637,13 @@ func main() {
 		return
 	}
 	rep := hx.NewReport("C07", o.Seed, o.Tier)
-	rep.Rule = "per RS kind (newline, 6 single bytes incl. NUL and 0xFF, empty, 1 multi-byte char, 8 regexes): every input up to 4 (thorough 6) alphabet units x EVERY chunking; random inputs up to 8 (thorough 12) bytes x every chunking; 15-55 byte inputs x every single split point, bytewise delivery, random chunkings with 0-byte reads, final read with io.EOF; 100/101 empty reads; 64 KiB-edge inputs split at 65535/65536/65537 and by bufio itself. distinct = distinct (RS, input, reads) triple; non-trivial = non-empty input"
+	rep.Rule = "per RS kind (newline, 6 single bytes incl. NUL and 0xFF, empty, 1 multi-byte char, 8 regexes): every input up to 4 (thorough 5) alphabet units x EVERY chunking; random inputs up to 8 (thorough 12) bytes x every chunking; 15-55 byte inputs x every single split point, bytewise delivery, random chunkings with 0-byte reads, final read with io.EOF; 100/101 empty reads; 64 KiB-edge inputs split at 65535/65536/65537 and by bufio itself. distinct = distinct (RS, input, reads) triple; non-trivial = non-empty input"
 	r := hx.NewRand(o.Seed)
 	ks := kinds()
 	// a few random regexes without anchors (Lib/Regex.v is validated against Go's regexp separately)
 	nrand := 4
 	if o.Tier == "thorough" {
-		nrand = 30
+		nrand = 20
 	}
 	for i := 0; i < nrand; i++ {
 		re := hx.RandRe(r, 2, false)
@@ -654,7 +657,6 @@ func main() {
 		ks = append(ks, k)
 	}
 	cases := genCases(o, r, ks)
-	t0 := time.Now()
 
 	// implementation
 	results := make([]result, len(cases))
@@ -662,7 +664,6 @@ func main() {
 		results[i] = runImpl(k.kind.rs, k.data, k.cuts, k.lastEOF)
 	}
 
-	fmt.Fprintf(os.Stderr, "impl done %v\n", time.Since(t0))
 	// correspondence
 	lines := make([]string, len(cases))
 	for i, k := range cases {
@@ -704,7 +705,6 @@ func main() {
 		}
 	}
 
-	fmt.Fprintf(os.Stderr, "model done %v\n", time.Since(t0))
 	// search oracle: the reference is the delivery in one read (bufio cuts it at its 64 KiB buffer)
 	refs := map[string]result{}
 	for i, k := range cases {
@@ -735,8 +735,14 @@ func main() {
 			rep.Fail(hx.Failure{Class: classifyChunkDiff(k, got, ref), Oracle: "chunked delivery = all-at-once delivery",
 				Detail: detail(k, got, clip(ref.canon()))})
 		}
+		// regex RS: losslessness must hold under every delivery, also the ones that change the records
+		if len(k.kind.rs) > 1 && got.stop == "done" {
+			rep.SearchEvals++
+			if c, orc, want := reconstruct(k, got); c != "" {
+				rep.Fail(hx.Failure{Class: c, Oracle: orc, Detail: detail(k, got, clip(want))})
+			}
+		}
 	}
-	fmt.Fprintf(os.Stderr, "search done %v\n", time.Since(t0))
 	rep.Write(o.Out)
 }
 
